@@ -123,3 +123,48 @@ Proof.
   destruct (q_ratio d brake) as [x|] eqn:Ex; [|discriminate]. destruct (q_ratio_si _ _ _ _ _ Ex sd sBA) as (HB & ->).
   injection H as <-. cbn zeta. split; [exact Hz|]. split; [exact HB|]. toR. reflexivity.
 Qed.
+
+(** ** StartProportionalToAngularPosition: while theta <= target, the linear ramp  p_min + (1 - p_min) theta / target  from the
+    minimum duty cycle to 1, where the computed minimum duty cycle is
+      multiplier * ( (1/eta_t) (T_l / T_max) ((i_max - i_0)/i_max) + i_0/i_max )
+    with T_l the motor load torque at the FIRST instant of the simulation (the present one when nothing is recorded yet), and the
+    user's fallback value is used exactly when the computed one is zero *)
+Theorem rule_prop_value (c : @chain RA) (w : @view RA) enc (target p i0 imax : rq) mult pmin TM TG L P I0 IM v :
+  m_i0 (c_motor c) = Some i0 -> m_imax (c_motor c) = Some imax ->
+  si (m_Tmax (c_motor c)) = Ok TM -> si target = Ok TG -> si p = Ok P -> si i0 = Ok I0 -> si imax = Ok IM ->
+  si (match w_first_ltq0 w with Some x => x | None => w_ltq0 w end) = Ok L ->
+  qk i0 = KCurrent -> qk imax = KCurrent ->
+  nth_error (w_pos w) enc = Some p ->
+  apply_rule c w (RProp enc target mult pmin) = Ok (Some v) ->
+  let eta := spur_eff c in
+  let computed := mult * (1 / eta * (L / TM) * ((IM - I0) / IM) + I0 / IM) in
+  eta <> 0 /\ TM <> 0 /\ IM <> 0 /\ TG <> 0 /\
+  exists pm, (computed <> 0 -> pm = computed) /\ (computed = 0 -> pmin = Some pm) /\ v = (1 - pm) * P / TG + pm.
+Proof.
+  intros Hi Hm sTM sTG sP sI sM sL kI kM Hp H. unfold apply_rule, bind, nthq in H. rewrite Hi, Hm, Hp in H.
+  unfold pydiv in H. change (@eqb RA) with Reqb in H. unfold Reqb in H at 1.
+  destruct (Req_EM_T (spur_eff c) (@zero RA)) as [Hz|Hz]; [discriminate|].
+  destruct (q_ratio _ (m_Tmax (c_motor c))) as [r1|] eqn:E1; [|discriminate]. destruct (q_ratio_si _ _ _ _ _ E1 sL sTM) as (HTM & ->).
+  destruct (q_sub imax i0) as [sp|] eqn:Es; [|discriminate].
+  assert (Hd : sub_defect_site (qk imax) (qk i0) = false) by (rewrite kI, kM; reflexivity).
+  destruct (q_sub_si _ _ _ _ _ Es Hd sM sI) as (_ & _ & ssp).
+  destruct (q_ratio sp imax) as [r2|] eqn:E2; [|discriminate]. destruct (q_ratio_si _ _ _ _ _ E2 ssp sM) as (HIM & ->).
+  destruct (q_ratio i0 imax) as [r3|] eqn:E3; [|discriminate]. destruct (q_ratio_si _ _ _ _ _ E3 sI sM) as (_ & ->).
+  match type of H with context [if negb (Reqb ?x ?z) then _ else _] => set (cmp := x) in * end.
+  assert (Ecmp : cmp = mult * (1 / spur_eff c * (L / TM) * ((IM - I0) / IM) + I0 / IM)) by (subst cmp; toR; reflexivity).
+  destruct (negb (Reqb cmp (@zero RA))) eqn:Enz.
+  - destruct (q_le p target) as [[|]|]; try discriminate.
+    destruct (q_rmul _ p) as [q|] eqn:Eq; [|discriminate]. destruct (q_rmul_si _ _ _ _ Eq sP) as (_ & _ & sq).
+    destruct (q_ratio q target) as [x|] eqn:Ex; [|discriminate]. destruct (q_ratio_si _ _ _ _ _ Ex sq sTG) as (HTG & ->).
+    injection H as <-. cbn zeta. repeat (split; [assumption|]). exists cmp. rewrite <- Ecmp.
+    split; [reflexivity|]. split.
+    + intros E0. exfalso. unfold Reqb in Enz. rewrite E0 in Enz. change (@zero RA) with 0%R in Enz. destruct (Req_EM_T 0 0); [discriminate|congruence].
+    + toR. reflexivity.
+  - destruct pmin as [pm|]; [|discriminate].
+    destruct (q_le p target) as [[|]|]; try discriminate.
+    destruct (q_rmul _ p) as [q|] eqn:Eq; [|discriminate]. destruct (q_rmul_si _ _ _ _ Eq sP) as (_ & _ & sq).
+    destruct (q_ratio q target) as [x|] eqn:Ex; [|discriminate]. destruct (q_ratio_si _ _ _ _ _ Ex sq sTG) as (HTG & ->).
+    injection H as <-. cbn zeta. repeat (split; [assumption|]). exists pm. rewrite <- Ecmp.
+    assert (E0 : cmp = 0). { unfold Reqb in Enz. change (@zero RA) with 0%R in Enz. destruct (Req_EM_T cmp 0); [assumption|discriminate]. }
+    split; [intros Hn; contradiction|]. split; [reflexivity|]. toR. reflexivity.
+Qed.
